@@ -85,12 +85,14 @@ pub struct NCfg {
     pub disconnects: u8,
     pub cap: usize,
     pub start_peer_id: u32,
+    /// the application may leave connection requests undecided for any number of steps
+    pub defer: bool,
 }
 
 impl NCfg {
     pub fn label(&self) -> String {
         format!(
-            "net accepting={} addrs{} rsend{} nsend{} drops{} adv{} garbage{} nconn{} disc{} cap{} pid0={}",
+            "net accepting={} addrs{} rsend{} nsend{} drops{} adv{} garbage{} nconn{} disc{} cap{} pid0={} defer={}",
             self.accepting,
             self.addrs,
             self.remote_sends,
@@ -101,7 +103,8 @@ impl NCfg {
             self.net_connects,
             self.disconnects,
             self.cap,
-            self.start_peer_id
+            self.start_peer_id,
+            self.defer
         )
     }
 }
@@ -111,6 +114,8 @@ pub enum Policy {
     Accept,
     Reject,
     Ignore,
+    /// leave the peer pending; the application decides in a later step (`NetDecide`)
+    Defer,
 }
 
 #[derive(Clone, Copy, Debug, Eq, Hash, PartialEq)]
@@ -128,6 +133,8 @@ pub enum NAct {
     NetSend(Addr, bool),
     NetFlush(Addr),
     NetDisconnect(Addr),
+    /// the application decides about a pending peer it left undecided
+    NetDecide(Addr, Policy),
     Advance,
     NetTick,
     RemoteTick(Addr),
@@ -185,6 +192,8 @@ pub struct NSt {
     /// reference connection per address (exists iff the Net should have a peer)
     pub refs: BTreeMap<Addr, Arc<Connection>>,
     pub pids: BTreeMap<Addr, u32>,
+    /// connection requests the application has not decided yet (address -> request carried a token)
+    pub pending: BTreeMap<Addr, bool>,
     pub remotes: Vec<Arc<Connection>>,
     pub rviews: Vec<Arc<ConnView>>,
     pub to_net: Vec<(Addr, Vec<u8>)>,
@@ -209,6 +218,7 @@ impl Clone for NSt {
             view: self.view.clone(),
             refs: self.refs.clone(),
             pids: self.pids.clone(),
+            pending: self.pending.clone(),
             remotes: self.remotes.clone(),
             rviews: self.rviews.clone(),
             to_net: self.to_net.clone(),
@@ -236,6 +246,7 @@ impl Hash for NSt {
         self.nserial.hash(h);
         self.rserial.hash(h);
         self.draws.hash(h);
+        self.pending.hash(h);
         self.bad.hash(h);
     }
 }
@@ -249,6 +260,7 @@ impl PartialEq for NSt {
             && self.nserial == o.nserial
             && self.rserial == o.rserial
             && self.draws == o.draws
+            && self.pending == o.pending
             && self.bad == o.bad
     }
 }
@@ -312,6 +324,7 @@ impl NetM {
             net: Arc::new(net),
             refs: BTreeMap::new(),
             pids: BTreeMap::new(),
+            pending: BTreeMap::new(),
             rviews: remotes.iter().map(|r| Arc::new(r.view(now))).collect(),
             remotes,
             to_net: Vec::new(),
@@ -509,7 +522,7 @@ impl NetM {
             Ok(f) => f,
             Err(p) => Some((panic_sig(&p), format!("panic: {}", p))),
         };
-        if let NAct::ToNet(..) | NAct::NetConnect(_) | NAct::NetSend(..) | NAct::NetFlush(_) | NAct::NetDisconnect(_) = act {
+        if let NAct::ToNet(..) | NAct::NetDecide(..) | NAct::NetConnect(_) | NAct::NetSend(..) | NAct::NetFlush(_) | NAct::NetDisconnect(_) = act {
             // the address of the (last) call of this step
             let a = match act {
                 NAct::NetConnect(a) | NAct::NetSend(a, _) | NAct::NetFlush(a) | NAct::NetDisconnect(a) => Some(a),
@@ -527,6 +540,51 @@ impl NetM {
             s.bad = true;
         }
         Some(s)
+    }
+
+    /// The application's decision about a pending peer, on the Net and on its reference.
+    fn decide(&self, s: &mut NSt, a: Addr, pid: PeerId, was_token: bool, policy: Policy) -> Fail {
+        match policy {
+            Policy::Accept => {
+                let (_, out) = self.net_call(s, a, |n, cb| {
+                    match n.accept(cb, pid) {
+                        Ok(()) => {}
+                        Err(e) => match e {},
+                    }
+                    vec![]
+                });
+                let (ev, exp) = self.ref_call(s, a, |e, cb, ev| {
+                    let mut w = Vec::new();
+                    Ep::feed(e, cb, if was_token { CONNECT_TOKEN } else { CONNECT_PLAIN }, ev, &mut w)
+                });
+                assert!(ev.is_empty());
+                Self::commit_draws(s, a);
+                self.expect_same("accept", vec![], vec![], out, exp, true)
+            }
+            Policy::Reject => {
+                let (_, out) = self.net_call(s, a, |n, cb| {
+                    match n.reject(cb, pid, b"full") {
+                        Ok(()) => {}
+                        Err(e) => match e {},
+                    }
+                    vec![]
+                });
+                let (_, exp) = self.ref_call(s, a, |e, cb, _| Ep::disconnect(e, cb, b"full"));
+                s.refs.remove(&a);
+                s.pids.remove(&a);
+                self.expect_same("reject", vec![], vec![], out, exp, true)
+            }
+            Policy::Ignore => {
+                let (_, out) = self.net_call(s, a, |n, _| {
+                    n.ignore(pid);
+                    vec![]
+                });
+                s.refs.remove(&a);
+                s.pids.remove(&a);
+                self.expect_same("ignore", vec![], vec![], out, vec![], true)
+            }
+            Policy::Defer => None,
+        }
     }
 
     /// One call on a copy of the Net; returns owned events and datagrams.
@@ -743,51 +801,25 @@ impl NetM {
                     s.refs.remove(&a);
                     s.pids.remove(&a);
                 }
+                // an undecided peer that has gone (or is no longer unconnected) needs no decision
+                if s.pending.contains_key(&a) && !s.view.peers.iter().any(|p| p.addr == a && p.conn.state == 0) {
+                    s.pending.remove(&a);
+                }
                 if expect_connect {
                     let pid = PeerId(connects[0]);
                     let was_token = d == CONNECT_TOKEN;
-                    match policy {
-                        Policy::Accept => {
-                            let (_, out) = self.net_call(s, a, |n, cb| {
-                                match n.accept(cb, pid) {
-                                    Ok(()) => {}
-                                    Err(e) => match e {},
-                                }
-                                vec![]
-                            });
-                            let (ev, exp) = self.ref_call(s, a, |e, cb, ev| {
-                                let mut w = Vec::new();
-                                Ep::feed(e, cb, if was_token { CONNECT_TOKEN } else { CONNECT_PLAIN }, ev, &mut w)
-                            });
-                            assert!(ev.is_empty());
-                            Self::commit_draws(s, a);
-                            return self.expect_same("accept", vec![], vec![], out, exp, true);
-                        }
-                        Policy::Reject => {
-                            let (_, out) = self.net_call(s, a, |n, cb| {
-                                match n.reject(cb, pid, b"full") {
-                                    Ok(()) => {}
-                                    Err(e) => match e {},
-                                }
-                                vec![]
-                            });
-                            let (_, exp) = self.ref_call(s, a, |e, cb, _| Ep::disconnect(e, cb, b"full"));
-                            s.refs.remove(&a);
-                            s.pids.remove(&a);
-                            return self.expect_same("reject", vec![], vec![], out, exp, true);
-                        }
-                        Policy::Ignore => {
-                            let (_, out) = self.net_call(s, a, |n, _| {
-                                n.ignore(pid);
-                                vec![]
-                            });
-                            s.refs.remove(&a);
-                            s.pids.remove(&a);
-                            return self.expect_same("ignore", vec![], vec![], out, vec![], true);
-                        }
+                    if policy == Policy::Defer {
+                        s.pending.insert(a, was_token);
+                        return None;
                     }
+                    return self.decide(s, a, pid, was_token, policy);
                 }
                 None
+            }
+            NAct::NetDecide(a, policy) => {
+                let was_token = s.pending.remove(&a).expect("pending");
+                let pid = PeerId(s.pids[&a]);
+                self.decide(s, a, pid, was_token, policy)
             }
             NAct::NetConnect(a) => {
                 s.b.net_connects -= 1;
@@ -944,6 +976,9 @@ impl Model for NetM {
                 for p in [Policy::Accept, Policy::Reject, Policy::Ignore] {
                     out.push(NAct::ToNet(i as u8, p));
                 }
+                if self.cfg.defer {
+                    out.push(NAct::ToNet(i as u8, Policy::Defer));
+                }
             } else {
                 out.push(NAct::ToNet(i as u8, Policy::Accept));
             }
@@ -985,6 +1020,11 @@ impl Model for NetM {
                 }
             }
             if let Some(p) = s.view.peers.iter().find(|p| p.addr == a) {
+                if p.conn.state == 0 && s.pending.contains_key(&a) {
+                    for pol in [Policy::Accept, Policy::Reject, Policy::Ignore] {
+                        out.push(NAct::NetDecide(a, pol));
+                    }
+                }
                 if p.conn.state == 3 {
                     if s.b.net_sends > 0 {
                         out.push(NAct::NetSend(a, true));
